@@ -356,6 +356,15 @@ class System(object):
                 else:
                     new = ([r @ R for R in Rs], [c * (r @ p) + t for p in ps],
                            ts)
+                if rank < 2:
+                    # numerically degenerate configuration that was not
+                    # refused: the returned parameters amplify rounding noise
+                    # without bound, so the model cannot predict the poses;
+                    # it adopts them (check_state still demands valid,
+                    # mutually consistent views)
+                    vv = common.views(o)
+                    new = ([M[:3, :3] for M in vv["poses"]],
+                           [M[:3, 3] for M in vv["poses"]], ts)
                 label = "%s%s" % (name, "/degenerate" if rank < 2 else "")
             elif name == "align_origin":
                 ref = _ref(n)
